@@ -174,4 +174,14 @@ def champions {K} [LT K] [DecidableLT K] (prev : K) : List (List K) → List K
     let c := ev.foldl (fun m x => if x < m then x else m) prev
     c :: champions c evs
 
+/-! ### declared files: a relative name means the file of the declaration's own working directory -/
+
+/-- `resolve_with_working_directory` + `Path.resolve` (`calibration.to_path_list`): a relative name is looked up
+under the working directory in force when the calibration is declared -/
+def resolvePath (wd name : String) : String := wd ++ "/" ++ name
+
+/-- the data a declaration (working directory, relative file names) is fitted against, for a file system `fs` -/
+def declaredData {α} (fs : String → Option α) (decl : String × List String) : List (Option α) :=
+  decl.2.map (fun n => fs (resolvePath decl.1 n))
+
 end PyxelModel.C11
